@@ -3,7 +3,7 @@
    library contract. *)
 From Coq Require Import ZifyBool ZifyNat ZifyN.
 From B39 Require Import Lib.Base Lib.Bits Lib.Sha256 Lib.Utf8 Lib.Nfkd Lib.TableWF Model.GenTypes Model.Model.
-From B39 Require Import Spec.Bip39Spec Proofs.Gates Proofs.Tables Proofs.BitsMore Proofs.Encode Proofs.Validate Proofs.Unicode Proofs.LibContract Proofs.Roundtrip Proofs.Sound Proofs.Reader.
+From B39 Require Import Spec.Bip39Spec Proofs.Gates Proofs.Tables Proofs.BitsMore Proofs.Encode Proofs.Validate Proofs.Unicode Proofs.LibContract Proofs.Roundtrip Proofs.Sound Proofs.Reader Proofs.Seed.
 Local Open Scope N_scope.
 
 Lemma canon_ok name l : supported name l -> table_ok (canon name) = true.
@@ -161,4 +161,15 @@ Proof.
   split.
   - rewrite H. unfold sep_of. rewrite (separator_is name l Hs), (list_of_canon name l Hs). reflexivity.
   - rewrite indices_length, firstn_length. apply Nat.leb_le in L. unfold need in *. unfold valid_wc_z in Hn. lia.
+Qed.
+
+(* ---------- C11: U+3000 vs U+0020 between list words ---------- *)
+Theorem seed_separators lib (Hlib : lib_contract lib) (tbl : list (list byte)) (idx : list N) (p : list byte) :
+  table_ok tbl = true -> Forall (fun i => i < 2048) idx -> xsafe p = true ->
+  MnemonicToSeed lib (join u3000 (map (word_at tbl) idx)) p = MnemonicToSeed lib (join [x20] (map (word_at tbl) idx)) p.
+Proof.
+  intros Htbl Hb Xp. pose proof (words_of_indices_ok tbl Htbl idx Hb) as Hws.
+  apply (seed_same_nfkd lib Hlib); [|reflexivity| |exact Xp].
+  - rewrite (nfkd_join _ _ _ is_sep_u3000 Hws), (nfkd_join _ _ _ is_sep_space Hws). reflexivity.
+  - exact (xsafe_sentence _ _ _ is_sep_u3000 Hws).
 Qed.
